@@ -1472,6 +1472,54 @@ async fn sctp_streams(s: &mut Sink, rng: &mut Rng, thorough: bool) {
     sctp_liveness(s, &mut live, cum.wrapping_add(1), 0, "the DATA/DCEP stream").await;
     cum = cum.wrapping_add(1);
 
+    // DATA chunks shorter than their 12-byte header (value length 0..11), next in sequence, ahead of the sequence with the
+    // gap closed afterwards, and duplicated; digest = [cumulative TSN advanced]
+    {
+        let full = |tsn: u32| { let mut v = tsn.to_be_bytes().to_vec(); v.extend([0, 0, 0, 0, 0, 0, 0, 53]); v };
+        let mut dead = false;
+        for vlen in 0..=12usize {
+            for fl in [0x07u8, 0x03, 0x00] {
+                let pp = panics();
+                let tsn = cum.wrapping_add(1);
+                let v = full(tsn)[..vlen].to_vec();
+                let pkt = raw_packet(tag, &chunk_bytes(0, fl, &v));
+                let r1 = live.exchange(vec![pkt.clone(), pkt]).await;
+                let r2 = live.exchange(vec![]).await;
+                if r1.is_none() || r2.is_none() { sctp_fail(s, T_SCTP_DATAHDR, "truncated DATA chunk, next in sequence, sent twice", format!("LIVENESS/PANIC: endpoint stopped answering after a DATA chunk with a {}-byte value (panics {}): {}", vlen, panics() - pp, last_panic()), &v); dead = true; break; }
+                let all: Vec<Chunk> = r1.unwrap().into_iter().chain(r2.unwrap()).collect();
+                let advanced = all.iter().any(|c| c.ty == 3 && parse_sack(&c.value).map(|k| k.cum == tsn).unwrap_or(false));
+                if advanced { cum = tsn; }
+                let fail = if panics() > pp { Some(format!("PANIC while handling a DATA chunk with a {}-byte value: {}", vlen, last_panic())) } else { None };
+                s.count(T_SCTP_DATAHDR, V_OK);
+                s.push_case(T_SCTP_DATAHDR, &[fl as i128], &[v], &Out1 { v: V_OK, dig: vec![advanced as i128] }, fail, "corpus", &format!("DATA chunk with a {}-byte value (flags {:#04x}), TSN = cumulative + 1, sent twice", vlen, fl), true);
+            }
+            if dead { break; }
+        }
+        // ahead of the sequence (it must not be queued), then the gap filler, then the truncated one again as a duplicate
+        if !dead {
+            for vlen in [4usize, 5, 8, 11] {
+                let pp = panics();
+                let ahead = full(cum.wrapping_add(2))[..vlen].to_vec();
+                let filler = build_packet(PEER_PORT, UUT_PORT, tag, &[data_chunk(cum.wrapping_add(1), 0, 0, 53, 7, b"fill")]);
+                let trunc = raw_packet(tag, &chunk_bytes(0, 7, &ahead));
+                let r1 = live.exchange(vec![trunc.clone(), filler, trunc]).await;
+                let r2 = live.exchange(vec![]).await;
+                let ok = r1.is_some() && r2.is_some() && panics() == pp;
+                let all: Vec<Chunk> = r1.into_iter().flatten().chain(r2.into_iter().flatten()).collect();
+                let sack = all.iter().filter(|c| c.ty == 3).filter_map(|c| parse_sack(&c.value)).map(|k| k.cum).last();
+                if sack == Some(cum.wrapping_add(1)) || sack == Some(cum.wrapping_add(2)) { cum = sack.unwrap(); }
+                s.count(T_SCTP_DATAHDR, V_OK);
+                s.out.push(Case { term: "-".into(), desc: json!({"target": tname(T_SCTP_DATAHDR), "what": format!("DATA with a {}-byte value and TSN = cumulative + 2, then the genuine chunk that closes the gap, then the truncated one again", vlen), "sack_cum": sack, "input_hex": hex(&ahead)}),
+                    oracle_fail: if ok { None } else { Some(format!("LIVENESS/PANIC: a truncated DATA chunk ahead of the sequence followed by the gap filler stopped the endpoint (panics {}): {}", panics() - pp, last_panic())) },
+                    known: None, nontrivial: true, key: format!("sctp|datahdr|ahead|{}", vlen), kind: "corpus".into() });
+                if !ok { dead = true; break; }
+            }
+        }
+        if dead { return; }
+        sctp_liveness(s, &mut live, cum.wrapping_add(1), 0, "the truncated-DATA stream").await;
+        cum = cum.wrapping_add(1);
+    }
+
     // FORWARD-TSN: new cumulative TSN observable through the SACK of a duplicate DATA chunk
     let mut fwds: Vec<(Vec<u8>, String, &str)> = vec![(vec![], "empty".into(), "corpus"), (vec![0, 0, 0], "3 bytes".into(), "corpus")];
     for k in 0..(if thorough { 120 } else { 30 }) {
@@ -1864,7 +1912,9 @@ async fn dtls_streams(s: &mut Sink, rng: &mut Rng, thorough: bool) {
                                     let _ = sv.peer.send_to(&record(22, 0, 1, &hs(1, 0, sentinel.len() as u32, 0, &sentinel)), sv.addr).await;
                                     let r = read_server_hello(&sv.peer, Duration::from_millis(1500)).await;
                                     live_alloc_note(tier, &frag, &w);
-                                    if r.is_none() && panics() == pp && ty != 1 { fail = Some(format!("LIVENESS: after a {} the DTLS server does not answer a valid ClientHello", what)); }
+                                    // a complete hostile message may legitimately fail the handshake (visible state Failed/Closed): that is termination, not a hang
+                                    let ended = matches!(*sv.dtls.subscribe_state().borrow(), rustrtc::transports::dtls::DtlsState::Failed | rustrtc::transports::dtls::DtlsState::Closed);
+                                    if r.is_none() && panics() == pp && ty != 1 && !ended { fail = Some(format!("LIVENESS: after a {} the DTLS server neither answers a valid ClientHello nor reports a failed handshake", what)); }
                                     sv.runner.abort();
                                 }
                                 1 => {
@@ -1874,7 +1924,7 @@ async fn dtls_streams(s: &mut Sink, rng: &mut Rng, thorough: bool) {
                                     let w = AllocWin::start();
                                     let _ = cl.peer.send_to(&record(22, 0, 0, &frag), cl.addr).await;
                                     for sq in [0u16, 1] { let _ = cl.peer.send_to(&record(22, 0, 1 + sq as u64, &hs(3, sq, 3 + 4, 0, &[254, 255, 4, 1, 2, 3, 4])), cl.addr).await; }
-                                    let _ = tokio::time::timeout(Duration::from_millis(150), cl.peer.recv_from(&mut b)).await; // new ClientHello (if the HVR was accepted)
+                                    let _ = tokio::time::timeout(Duration::from_millis(60), cl.peer.recv_from(&mut b)).await; // new ClientHello (if the HVR was accepted)
                                     live_alloc_note(tier, &frag, &w);
                                     cl.runner.abort();
                                 }
